@@ -1,4 +1,5 @@
 import CwMt.Proofs.EngineB
+import CwMt.Proofs.Engine
 /-
   C10 — Queries are pure and observe exactly the transaction's current state.
   `query` has no state in its result type (purity is a typing fact of the model: the same snapshot
@@ -48,5 +49,41 @@ theorem balance_is_entry_of_all (cfg : Config E) (eq : ExtKind → Chain E → B
     query cfg eq blk ch (.balance a d) = .ok (.amount (Bank.amountOf (Bank.balance ch.bank a) d)) ∧
     query cfg eq blk ch (.allBalances a) = .ok (.coins (Bank.balance ch.bank a)) :=
   EngineB.balance_is_entry_of_all cfg eq blk ch a d hv
+
+/-- A query issued through `App` after a transaction that did not return `Ok` gets the answer it would have got
+before the transaction, whatever the query: the failed transaction is not observable (with C01). -/
+theorem app_query_after_failed_tx (cfg : Config E) (eq : ExtKind → Chain E → Block → Val → Outcome Val)
+    (blk : Block) (fuel : Nat) (ch : Chain E) (sender : Addr) (msgs : List Msg) (r : Outcome (List AppResponse))
+    (ch' : Chain E) (tr : Trace) (h : App.executeMulti cfg blk fuel ch sender msgs = (r, ch', tr))
+    (hr : r.isOk = false) (q : Query) : query cfg eq blk ch' q = query cfg eq blk ch q := by
+  rw [Engine.atomic_execute_multi cfg blk fuel ch sender msgs r ch' tr h hr]
+
+/-- … and after a successful one it is evaluated on exactly the state the message list computed (nothing of it is
+missing from what `App`-level queries see). -/
+theorem app_query_after_ok_tx (cfg : Config E) (eq : ExtKind → Chain E → Block → Val → Outcome Val)
+    (blk : Block) (fuel : Nat) (ch : Chain E) (sender : Addr) (msgs : List Msg) (rs : List AppResponse)
+    (ch' : Chain E) (tr : Trace) (h : App.executeMulti cfg blk fuel ch sender msgs = (.ok rs, ch', tr)) (q : Query) :
+    ∃ chF, App.runMsgs cfg blk fuel ch sender msgs [] = (.ok (rs, chF), tr) ∧
+      query cfg eq blk ch' q = query cfg eq blk chF q :=
+  ⟨ch', Engine.ok_persists cfg blk fuel ch sender msgs rs ch' tr h, rfl⟩
+
+/-- A raw query and a smart query of contract `c` read the same key space: the raw query returns the entry of the
+very store that the contract's `query` entry point is handed (absent = empty bytes). -/
+theorem raw_and_smart_read_one_store (cfg : Config E) (eq : ExtKind → Chain E → Block → Val → Outcome Val)
+    (blk : Block) (ch : Chain E) (c : String) (k m : Val) (cd : ContractData) (code : Code E)
+    (hv : cfg.validAddr c = true) (hc : ch.contracts.get? c = some cd)
+    (hcode : contractCode? cfg cd.codeId = some code) :
+    query cfg eq blk ch (.wasmRaw c k) = .ok (.bytes ((((ch.cstore.get? c).getD []).get k).getD [])) ∧
+    query cfg eq blk ch (.wasmSmart c m) =
+      (code.query m (contractEnv blk c) ch ((ch.cstore.get? c).getD [])).map .bytes := by
+  simp [query, hv, hc, hcode]
+
+/-- The state a reply handler (and so every query it makes) sees after a FAILED sub-message is the state from before
+that sub-message: nothing the sub-message did, however deep, can be queried (restating C02 for queries). -/
+theorem reply_after_failed_sub_queries_old_state (cfg : Config E) (blk : Block) (fuel : Nat) (ch : Chain E)
+    (contract : Addr) (sm : SubMsg) (tr tr₁ : Trace)
+    (h : execute cfg blk fuel ch contract sm.msg tr = (.err, tr₁)) (hw : wantsReplyOnErr sm.replyOn = true) :
+    executeSubmsg cfg blk (fuel + 1) ch contract sm tr = reply cfg blk fuel ch contract ⟨sm.id, sm.payload, .err⟩ tr₁ := by
+  rw [Engine.failed_sub_discarded cfg blk fuel ch contract sm tr tr₁ h, if_pos hw]
 
 end CwMt.C10
